@@ -41,6 +41,8 @@ fn io_code(code: i32, rep: &mut Report) -> bool {
 
 pub fn run(args: &Args, rep: &mut Report) {
     let mut rng = Rng::new(args.seed);
+    rep.sample("C13 OS code case", "io::Error::from_raw_os_error(-22): encode must give -22, decode must give raw_os_error()==Some(-22); code 0 must encode to a non-zero value");
+    rep.sample("C13 payload path", "Err(()) encoded with a live Tracked sentinel in the out slot: code != 0, sentinel neither dropped nor overwritten; decoder handed the slot must not drop it");
     let what = args.kv.get("what").map(|s| s.as_str()).unwrap_or("all").to_string();
     if what == "all" || what == "paths" {
         for _ in 0..args.get("rounds", 50) {
